@@ -1,11 +1,15 @@
 #!/bin/bash
 # Runs, for every seeded change under seeded/<name>/, the quick check of the property it breaks against a scratch copy of
 # /repo with the patch applied, and reports whether a VIOLATION is printed (expected for every seed).
+# usage: tools/seed_regression.sh [parallel jobs, default 3] [name filter (grep -E)]
 cd /verif
-ok=0; miss=0
-for d in seeded/*/; do
-  n=$(basename $d); p=$(python3 -c "import json;print(json.load(open('$d/meta.json'))['breaks_property'])")
+P=${1:-3}; F=${2:-.}
+one() {
+  d=$1; n=$(basename $d); p=$(python3 -c "import json;print(json.load(open('$d/meta.json'))['breaks_property'])")
   r=$(DIFFLINES=0 tools/mutrun.sh /verif/$d/patch.diff -- $p 2>&1 | grep "^== $p")
-  case "$r" in *"exit=1"*) ok=$((ok+1)); echo "DETECTED $n $r";; *) miss=$((miss+1)); echo "MISSED   $n $r";; esac
-done
-echo "seeds detected: $ok, missed: $miss"
+  if python3 -c "import json,sys;sys.exit(0 if json.load(open('$d/meta.json')).get('covered', True) is False else 1)"; then echo "UNCOVERED-BY-DECISION $n $r"; return; fi
+  case "$r" in *"exit=1: 0 violation"*) echo "CRASHED  $n $r";; *"exit=1"*) echo "DETECTED $n $r";; *) echo "MISSED   $n $r";; esac
+}
+export -f one
+ls -d seeded/*/ | grep -E "$F" | xargs -P $P -I{} bash -c 'one {}' | tee /tmp/seedreg.out
+echo "seeds detected: $(grep -c '^DETECTED' /tmp/seedreg.out), missed: $(grep -c '^MISSED' /tmp/seedreg.out), crashed: $(grep -c '^CRASHED' /tmp/seedreg.out)"
